@@ -21,6 +21,7 @@ type c20Handler struct {
 	Table []bool `json:"table,omitempty"` // by envelope class 0..3
 	Via   string `json:"via"`             // handler (interface value) | func (HandlerFunc) | catchall
 	ErrAt int    `json:"errAt,omitempty"` // return an error at this invocation (1-based); 0 = never
+	ErrIs string `json:"errIs,omitempty"` // what the error is: "" plain | ctx-deadline | ctx-canceled (from a context the handler derived itself)
 }
 
 type c20Env struct {
@@ -124,7 +125,15 @@ func (r *c20Recorder) invoke(kind string, idx int, got interface{}) error {
 	var err error
 	if h.ErrAt > 0 && r.calls[key] == h.ErrAt {
 		inv.Err = true
-		err = errors.New("handler failure injected")
+		switch h.ErrIs {
+		case "ctx-deadline":
+			// e.g. the handler called a backend under its own context.WithTimeout and that timed out
+			err = fmt.Errorf("handler failure injected: backend call: %w", context.DeadlineExceeded)
+		case "ctx-canceled":
+			err = fmt.Errorf("handler failure injected: %w", context.Canceled)
+		default:
+			err = errors.New("handler failure injected")
+		}
 	}
 	r.log = append(r.log, inv)
 	return err
@@ -464,6 +473,7 @@ func genC20Handler(rt *rapid.T, allowErr bool) c20Handler {
 	}
 	if allowErr && rapid.IntRange(0, 9).Draw(rt, "err?") == 0 {
 		h.ErrAt = rapid.IntRange(1, 4).Draw(rt, "errAt")
+		h.ErrIs = rapid.SampledFrom([]string{"", "", "ctx-deadline", "ctx-canceled"}).Draw(rt, "errIs")
 	}
 	return h
 }
@@ -527,8 +537,8 @@ func TestC20Tables(t *testing.T) {
 	}
 	for ki, kind := range c20Kinds {
 		for ti, tb := range tables {
-			for _, errAt := range []int{0, 1} {
-				if errAt == 1 && len(tb) == 0 {
+			for _, errAt := range []int{0, 1, 2, 3} {
+				if errAt >= 1 && len(tb) == 0 {
 					continue
 				}
 				idx++
@@ -536,8 +546,9 @@ func TestC20Tables(t *testing.T) {
 					continue
 				}
 				tbl := append([]c20Handler(nil), tb...)
-				if errAt == 1 {
+				if errAt >= 1 {
 					tbl[len(tbl)-1].ErrAt = 1
+					tbl[len(tbl)-1].ErrIs = []string{"", "", "ctx-deadline", "ctx-canceled"}[errAt]
 				}
 				c := &c20Case{Tables: map[string][]c20Handler{kind: tbl}, Mode: []string{"listen-server", "listen-client", "server"}[(ti+ki)%3], Transport: []string{"inproc", "tcp"}[ti%2]}
 				for _, s := range [][2]int{{0, 1}, {1, 0}, {0, 0}, {1, 1}} {
